@@ -123,7 +123,7 @@ RAISE = [
      '+ velocity_vector.z * velocity_vector.z'),
 ]
 PHYSICS = ['range_vector', 'velocity_vector', 'time', 'wind_vector', f'{WS}.current', f'{WS}.next_range']
-RECORDING = [DF, 'ranges', 'record_step', 'time_step']
+RECORDING = [DF, 'ranges', 'record_step', 'time_step', 'maximum_range']   # C11: neither the step nor the range requested
 
 contract(f'{TC}::TrajectoryCalc._integrate', props=INTEGRATE_PROPS,
          params=dict(self=CALC, shot_info=SHOT, maximum_range=Real(lo=0), record_step=Real(lo=0),
